@@ -247,16 +247,6 @@ theorem multiA_nosig {env : Env} (hns : NoSig env) (ke : KeyEnv) (k : Nat) (hk :
     have : (x == 0) = false := by simpa using hx0
     rw [this]; rfl
 
-/-- `pushInt k` always pushes the minimal encoding of `k` -/
-theorem intBytes_eq_numEncode (k : Nat) : intBytes k = numEncode (k : Int) := by
-  unfold intBytes
-  split
-  · rename_i h
-    have : ∀ j : Fin 17, (if j.val = 0 then ([] : Bytes) else [UInt8.ofNat j.val]) = numEncode ((j.val : Nat) : Int) := by
-      decide
-    exact this ⟨k, by omega⟩
-  · rfl
-
 /-- minimal encodings of naturals below 2³¹ are distinct -/
 theorem numEncode_inj {a b : Nat} (ha : a < 2 ^ 31) (hb : b < 2 ^ 31)
     (h : numEncode (a : Int) = numEncode (b : Int)) : a = b := by
